@@ -25,10 +25,9 @@ package indexes
 //@   mode int
 //@   ensures (result == nil) == bytesEq(m.IndexKind, x)
 
-// cid.Cid is a struct of an external package and (Cid).Equals is an external method: vcgo gives its result no meaning, so
-// "result == nil <==> m.RootCid == x" cannot be established; what is checked is that nothing is written.
 //@ func (*Metadata) AssertRootCid
 //@   mode int
+//@   ensures (result == nil) == (m.RootCid == x)
 
 //@ func IsValidNetwork
 //@   mode int
@@ -55,7 +54,7 @@ package indexes
 //@   ensures result == nil ==> len(index.Header.Metadata.KeyVals[old(len(index.Header.Metadata.KeyVals)) + 2].Value) == len(metadata.Network)
 //@   ensures result == nil ==> bytesEq(index.Header.Metadata.KeyVals[old(len(index.Header.Metadata.KeyVals)) + 3].Key, indexmeta.MetadataKey_Kind)
 //@   ensures result == nil ==> bytesEq(index.Header.Metadata.KeyVals[old(len(index.Header.Metadata.KeyVals)) + 3].Value, metadata.IndexKind)
-//@   ensures result == nil ==> validNet(metadata.Network) && len(metadata.IndexKind) > 0
+//@   ensures result == nil ==> validNet(metadata.Network) && len(metadata.IndexKind) > 0 && metadata.RootCid != cid.Undef
 
 // getDefaultMetadata: each field comes from the FIRST pair stored under its key; a missing key or an epoch value that is not
 // 8 bytes long is an error. (Root CID: cid.Cast is external, its result has no meaning for vcgo. Network: a []byte->string
@@ -126,9 +125,7 @@ package indexes
 // ---- M2: a successfully opened new-format index has a meta whose kind is the kind of the reader type ----
 // (plus what the open functions check besides: known network, defined root CID)
 
-// (The open functions also reject `meta.RootCid == cid.Undef`; cid.Undef is a variable of an external package, which vcgo reads
-// as a fresh unknown each time, so "RootCid is defined" cannot be carried into the postcondition.)
-//@ spec func openedAs(m *Metadata, kind []byte) bool = m != nil && bytesEq(m.IndexKind, kind) && validNet(m.Network)
+//@ spec func openedAs(m *Metadata, kind []byte) bool = m != nil && bytesEq(m.IndexKind, kind) && validNet(m.Network) && m.RootCid != cid.Undef
 
 //@ func OpenWithReader_CidToOffsetAndSize
 //@   mode int
